@@ -215,7 +215,9 @@ def _deserialize_exception(data: Any) -> Exception:
     try:
         exc_cls = import_module_from_qualified_name(data["exception_type"])
         return exc_cls(exc_message)
-    except (ImportError, AttributeError, ValueError):
+    except Exception:
+        # not importable, or not constructible from a single message
+        # (e.g. json.JSONDecodeError, httpx.HTTPStatusError): keep the message
         return Exception(exc_message)
 
 
